@@ -302,6 +302,10 @@ class Harness:
                         tuple(t.__name__ for t in w.agents[k].components)))
         return tuple(out)
 
+    def refstate(self, w):
+        return tuple(None if w.pos[k] is None else tuple((v.numerator, v.denominator) for v in w.pos[k])
+                     for k in self.agents)
+
     def outcome(self, w):
         return w.last
 
